@@ -182,7 +182,7 @@ func init() {
 				return []string{"GORACE=halt_on_error=0 exitcode=0 log_path=" + filepath.Join(e.Scratch, "race", "r")}
 			},
 			ExtraFn:       func(e *Env) []string { return []string{"-racelog", filepath.Join(e.Scratch, "race", "r")} },
-			RequireProbes: []string{"op_render", "op_render-shared", "op_render-struct", "op_js", "op_compile", "op_parse", "completed_render", "completed_render-shared", "completed_render-struct", "completed_js", "completed_compile", "completed_parse", "op_with_catalogue", "runs_with_pomsg_bundle", "runs_with_obligatory_directives", "runs_with_logger", "sched_random", "sched_pct", "sched_coarse", "sched_rr"},
+			RequireProbes: []string{"op_render", "op_render-shared", "op_render-struct", "op_js", "op_compile", "op_parse", "completed_render", "completed_render-shared", "completed_render-struct", "completed_js", "completed_compile", "completed_parse", "op_compile_malformed", "op_parse_malformed", "op_with_catalogue", "runs_with_pomsg_bundle", "runs_with_obligatory_directives", "runs_with_logger", "sched_random", "sched_pct", "sched_coarse", "sched_rr"},
 		}
 	})
 }
@@ -286,7 +286,7 @@ func init() {
 			},
 			Components:    map[string][]string{"real": append(realSoy, "unmodified build in fresh processes for the cross-process clause"), "stub": {}, "replaced": {"Go's map iteration start offset at the range sites of soymsg/placeholder.go and ast/node.go"}},
 			Post:          nativeCrossCheck(3, 60),
-			RequireProbes: []string{"check_maporder", "check_history", "check_context", "check_sensitivity", "map_order_decisions_perturbed", "messages_with_suffixed_placeholder_names", "native_units"},
+			RequireProbes: []string{"check_maporder", "check_history", "check_context", "check_context_nested", "check_sensitivity", "map_order_decisions_perturbed", "messages_with_suffixed_placeholder_names", "native_units"},
 		}
 	})
 }
